@@ -91,11 +91,30 @@ def strip(r):
     return {"id": r["id"], "src": r["src"], "mpc": r["mpc"], "owners": r["owners"], "outs": r["outs"]}
 
 
+def supported_at(rec, ring):
+    """mirror of the one data-dependent `Unsupported` clause of spec/CCOps.tla that the program classes do not already
+    exclude: VectorGet needs the vector length to fit the index type's image in the ring"""
+    for key in ("src", "mpc"):
+        g = rec[key]
+        for n in g:
+            if n["op"] == "VectorGet":
+                vt, it = g[n["deps"][0] - 1]["ty"], g[n["deps"][1] - 1]["ty"]
+                if BITS[it["st"]] > ring and vt["n"] > 2 ** min(BITS[it["st"]], ring):
+                    return False
+    return True
+
+
 def run_aby3(chk, recs, mode, ring, tag, sample_runs=None, workers=8, timeout=1500, module="ABY3Run", invariant=None, view_roots=False, spec="MacroSpec", progvar="g", exhaust_inputs=False):
     """TLC on ABY3Run for the given program records.
     sample_runs=None: every choice explored (exhaustive); sample_runs=K: K independent random runs per
     program (Sample = TRUE; explored breadth-first, so it parallelises and avoids TLC's -simulate mode).
     Returns (ok, result, violating record or None)."""
+    # the interpreter gives no meaning to a lookup by an integer index in a ring too small to hold the index
+    # (CCOps!Plan: "VectorGet index outside the exact ring"): such programs are left to the rings that can, and to the wide phase
+    kept = [r for r in recs if supported_at(r, ring)]
+    if len(kept) != len(recs):
+        chk.count("programs_not_interpretable_in_ring_%d" % ring, len(recs) - len(kept))
+    recs = kept
     if not recs:
         return True, None, None
     path = chk.path("%s.progs.ndjson" % tag)
